@@ -265,14 +265,21 @@ def header_event(inst, rng, prop="C03"):
 
 
 # ---------------------------------------------------------------- C11 / C12
+def canon_typed(v):
+    """as canon(), but text stays text even when it looks like a number (both sides of C11/C12 comparisons are read results)"""
+    if isinstance(v, str):
+        return "s:" + v
+    return canon(v)
+
+
 def content_digest(las, drop=()):
-    """Canonical content of a read result: header items (numbers numerically) + ~Other + curve data."""
+    """Canonical content of a read result: header items (numbers numerically, text as text) + ~Other + curve data."""
     secs = []
     for name, sec in las.sections.items():
         if isinstance(sec, str):
             secs.append([name, sec])
         else:
-            secs.append([name, [[it.original_mnemonic, it.mnemonic, str(it.unit), canon(it.value), str(it.descr)]
+            secs.append([name, [[it.original_mnemonic, it.mnemonic, str(it.unit), canon_typed(it.value), str(it.descr)]
                                 for it in list.__iter__(sec) if it.original_mnemonic.upper() not in drop]])
     arrays = [arr_digest(c.data) for c in list.__iter__(las.curves)]
     blob = json.dumps([secs, arrays], sort_keys=True, ensure_ascii=False)
